@@ -69,6 +69,11 @@ pub fn check(a: &Analysis, _aux: &mut Aux, t: &mut Tally) -> Vec<Violation> {
                         }
                         continue;
                     }
+                    DataVerdict::CollisionValidated => {
+                        // its cookie collides with that of an earlier flow, but it presented its own
+                        // valid cookie: data of a validated flow, judged at the transport level
+                        t.judged(Verdict::Reply, format!("data|collision-validated|n{}", info.accepted_before.min(3)));
+                    }
                     DataVerdict::Validates | DataVerdict::Established => {
                         t.judged(
                             Verdict::Reply,
